@@ -15,8 +15,8 @@ from engine.runner import Ob
 PROPERTY = "C11"
 LEVEL = "model_checking"
 ASSUMPTIONS = [
-    "claimed formats: text (utf-8) and bytes for all strings/bytes of length <=3 (thorough 4); json for None / int -999..999 / str |s|<=2 / "
-    "dict and list values of depth <=2 with <=2 members, keys |k|<=1 (CrossHair's pure-Python json model); default format of each type "
+    "claimed formats: text (utf-8) and bytes for all strings/bytes of length <=3 (thorough 4); json for None / int -99..99 / str |s|<=1 / "
+    "dict and list values of depth <=2 with <=2 members, keys from a pool of 4 (CrossHair's pure-Python json model); default format of each type "
     "and every other (type, extension) pair the type reads back",
     "outside the claim: pickle, parquet, feather, DataFrame pickle (C libraries), float values (CrossHair realises float<->str), and the "
     "line-oriented 'djson' dictionary format (CrossHair crashes on '%-20s%s' %% f-string formatting; its reader is json.loads of a "
@@ -57,7 +57,7 @@ def ob_bytes(b: bytes) -> bool:
 
 def ob_json_scalar(kind: int, n: int, s: str) -> bool:
     """
-    pre: 0 <= kind <= 2 and -999 <= n <= 999 and len(s) <= 2 and all(32 <= ord(c) < 127 for c in s)
+    pre: kind == part("kind") and -99 <= n <= 99 and len(s) <= 1 and all(32 <= ord(c) < 127 for c in s)
     post: _
     """
     kind = pick(kind, 3)
@@ -73,12 +73,16 @@ def ob_json_scalar(kind: int, n: int, s: str) -> bool:
     return check(_roundtrip(x) and _roundtrip(x, "json"))
 
 
-def ob_json_dict(keys: List[str], ints: List[int], nest: int, s: str) -> bool:
+KEYPOOL = ["a", "", "k\"q", "b"]
+
+
+def ob_json_dict(kis: List[int], ints: List[int], nest: int, s: str) -> bool:
     """
-    pre: len(keys) <= 2 and all(len(k) <= 1 and all(32 <= ord(c) < 127 for c in k) for k in keys) and len(ints) == 2
-    pre: all(-99 <= i <= 99 for i in ints) and 0 <= nest <= 3 and len(s) <= 1 and all(32 <= ord(c) < 127 for c in s)
+    pre: len(kis) == part("nk") and all(0 <= k < len(KEYPOOL) for k in kis) and len(ints) == 2
+    pre: all(-9 <= i <= 9 for i in ints) and nest == part("nest") and len(s) <= 1 and all(32 <= ord(c) < 127 for c in s)
     post: _
     """
+    keys = [KEYPOOL[pick(k, len(KEYPOOL))] for k in kis]
     nest = pick(nest, 4)
     leafs = [ints[0], None, s, [ints[1], s]]
     d = {}
@@ -102,16 +106,21 @@ def ob_dispatch(kind: int, n: int) -> bool:
     post: _
     """
     kind = pick(kind, len(KINDS))
-    x = [None, n, "t%d" % n if False else "txt", b"by", {"a": n}, [n, 1], (n, 2)][kind]
-    with nt():
-        # pickle (lists, tuples, arbitrary objects) is C code: run it untraced on the concrete value
-        if kind >= 5:
+    if kind >= 5:
+        with nt():
+            # pickle (lists, tuples, arbitrary objects) is C code: run it untraced on the concrete value
             x = [conc(n), 1] if kind == 5 else (conc(n), 2)
+            b, mime, tid = encode_state_data(x)
+            t = state_types_registry().get(tid)
+            y = decode_state_data(b, tid)
+            ok = t.identifier() == tid and type(y) is type(x) and y == x and tid == "pickle"
+    else:
+        x = [None, n, "txt", b"by", {"a": n}][kind]
         b, mime, tid = encode_state_data(x)
         t = state_types_registry().get(tid)
         y = decode_state_data(b, tid)
         ok = t.identifier() == tid and type(y) is type(x) and y == x
-        ok = ok and state_types_registry().from_type_identifier(tid).identifier() == tid
+        ok = ok and tid == ["generic", "generic", "text", "bytes", "dictionary"][kind]
     return check(ok)
 
 
@@ -143,8 +152,11 @@ def obligations(tier):
     return [
         Ob("ob_text", dict(n=n), timeout=t, per_path=30, bounds="text: every str of Unicode scalars |s|<=%d" % n),
         Ob("ob_bytes", dict(n=n), timeout=t, per_path=30, bounds="bytes: every bytes |b|<=%d (extensions default, b, bin)" % n),
-        Ob("ob_json_scalar", {}, timeout=t, per_path=30, bounds="json: None, int -999..999, str |s|<=2 printable ASCII"),
-        Ob("ob_json_dict", {}, timeout=t if q else 3000, per_path=60, bounds="json/dictionary: dict with <=2 keys |k|<=1, leaves int/None/str/list, nesting depth <=2; copy shares nothing"),
+    ] + [Ob("ob_json_scalar", dict(kind=k), timeout=t, per_path=30, bounds="json: %s" % ["None", "int -99..99", "str |s|<=1 printable ASCII"][k]) for k in range(3)
+    ] + [Ob("ob_json_dict", dict(nk=nk, nest=nest), timeout=t if q else 3000, per_path=60,
+            bounds="json/dictionary: dict with %d keys from a pool of 4 (incl. '' and a key with a quote), leaf pattern %d of int -9..9 / None / str |s|<=1 / list, nesting depth <=2; copy shares nothing" % (nk, nest))
+         for nk in (0, 1, 2) for nest in ((0,) if q else (0, 1, 2, 3))
+    ] + [
         Ob("ob_dispatch", {}, timeout=t, per_path=30, bounds="dispatch: 7 value kinds (None,int,str,bytes,dict,list,tuple) - identifier selects a decoder that accepts the bytes"),
         Ob("ob_copy", {}, timeout=t, per_path=30, bounds="copy: nested lists / dicts of depth 2 with symbolic ints: equal, independent"),
     ]
